@@ -497,7 +497,9 @@ def check_C12(ctx):
         rep.ob("C12.bitset-parser", "0..9 tokens", nb == 0, "BinaryCard::from_index is not the union over its tokens on %d token counts" % nb, pdb.where(key))
         # loop shape: one loop, left only when the token iterator is exhausted
         cfg = ex.cfg(key)
-        rep.ob("C12.bitset-parser", "loop", len(cfg.loops) == 1, "expected exactly one loop, found %d" % len(cfg.loops), pdb.where(key))
+        nred = len([r for r in ex.reductions if r["caller"] == key])
+        rep.ob("C12.bitset-parser", "loop", len(cfg.loops) == 1 or (len(cfg.loops) == 0 and nred == 1),
+               "expected one loop (or one iterator reduction) over the tokens, found %d loops and %d reductions" % (len(cfg.loops), nred), pdb.where(key))
         for h in cfg.loops:
             exits = cfg.loop_exits(h)
             rep.ob("C12.bitset-parser", "single exit", len({e[0] for e in exits}) == 1, "the token loop has %d exit edges (early exit?)" % len(exits), pdb.where(key))
